@@ -298,9 +298,9 @@ def main(argv=None):
     tier, seed = R.tier_and_seed(argv)
     rep = R.Report(PROP, tier, seed)
     if tier == "quick":
-        Ns, nmax, to = [4, 8, 10], 8, 300000
+        Ns, nmax, to = [4, 8, 10, 12, 14], 9, 300000
     else:
-        Ns, nmax, to = [6, 10, 12, 16, 20], 10, 3000000
+        Ns, nmax, to = [6, 10, 12, 16, 20, 24], 11, 3000000
     items = [{"kind": "dist", "N": N, "seed": seed + N, "nval": 200, "timeout_ms": to,
               "cvc5": (240 if (tier == "thorough" and N == 10) else 0)} for N in Ns]
     items += [{"kind": "complete", "N": 40, "timeout_ms": to}]
